@@ -2,7 +2,7 @@ SPECIFICATION Spec
 CONSTANTS
   KF_IntermediateAKCounts = FALSE
   KF_UnconfirmedAccountOpen = FALSE
-  MaxOps = 9
+  MaxOps = 1000
 INVARIANTS TypeOK ChangesAuthorised NoDisappear
 PROPERTIES ConfirmedFromPool
 VIEW View
